@@ -367,6 +367,9 @@ def run_case(c, dt, lines, pend):
         c.fail("transcribe raised on a valid instance: " + (r1[1] if r1[0] == "raise" else r0[1]), view)
         return
     tr, tr0 = r1[1], r0[1]
+    if not (len(tr.lbg) == tr.ng == len(tr.ubg)):
+        c.fail("g, lbg and ubg have different lengths", view, dict(g=tr.ng, lbg=len(tr.lbg), ubg=len(tr.ubg)))
+        return
     if tr.N != tr0.N:
         c.broken.append(("c06 harness", "user functions changed the decision vector size"))
         return
@@ -573,11 +576,33 @@ def run(c):
         "harness on trajectories decoded through state_vector(); how the environment is built is C01/C15",
         "path objective is scalar and path-constraint expressions/sizes are those of member 0 (documented "
         "assumption of the code); Timeseries bound values are finite",
+        "model precondition: the bound of a scalar (size 1) point constraint is a scalar or a one-element array; "
+        "transcribe() does not shape-check longer arrays there (the solver call then fails on the length of lbg: a "
+        "late crash, not a wrong answer)",
     ]
     c.prove()
     stream_malformed(c)
     probe_f6(c)
-    stream_main(c, c.n(50, 600))
+    stream_main(c, c.n(120, 1000))
     with warnings.catch_warnings():
         warnings.simplefilter("ignore")
-        stream_solve(c, c.n(6, 40))
+        stream_solve(c, c.n(8, 50))
+    c.exhaustive = False
+    c.notes.append(
+        "user rows are isolated as the multiset difference between the full transcription and the transcription of "
+        "the same problem without user functions; affine instances are compared completely (probes 0, e_1..e_N "
+        "determine (A, b) of f and of every row), polynomial ones at 5 random probes; F6 (symbolic path-constraint "
+        "bounds) is probed separately and kept out of the main stream."
+    )
+
+
+def replay(c, rp):
+    """re-run the generator stream of the recorded seed and tier (instances derive from the seed only)"""
+    import random
+
+    for f in (rp.get("failures", []) + rp.get("correspondence_disagreements", []))[:5]:
+        print("replaying:", f.get("what"))
+    c.seed = rp.get("seed", c.seed)
+    c.tier = rp.get("tier", c.tier)
+    c.rng = random.Random(c.seed * 1000003 + int(c.pid[1:]))
+    run(c)
